@@ -1,6 +1,6 @@
 import Updog.Generated
 namespace Updog.Facts
 open Updog.Generated
-theorem C14_facts : convertUsesGetters = true ∧ toQueryUsesGetters = true ∧ validateExprShape = true ∧ executeShape = true ∧
+theorem C14_facts : serverPlainGrpcServer = true ∧ convertUsesGetters = true ∧ toQueryUsesGetters = true ∧ validateExprShape = true ∧ executeShape = true ∧
     serverLoopShape = true := by decide
 end Updog.Facts
